@@ -33,6 +33,12 @@
                one, else the global cell. Library code that silences the logger for a trial operation uses the
                override (e.g. lydxml_data_check_opaq, parser_xml.c:424-426); LogSaveSet/LogRestore model what the same
                code would do with the global cell (prev = ly_log_options(0); ...; ly_log_options(prev))
+     typeref   the reference counter of a compiled type of the SHARED schema (struct lysc_type.refcount): values in private
+               data trees that hold a compiled path with predicates (instance-identifier) take a reference on the key's
+               type when the value is stored or duplicated (LY_ATOMIC_INC_BARRIER: path.c:717, 780, 977; schema_compile.c:
+               973) and give it back when the value is freed (LY_ATOMIC_DEC_BARRIER in lysc_type_free,
+               tree_schema_free.c:887). RefInc / RefDec are the atomic operations; RefLoad + RefStoreInc is what a plain
+               ++type->refcount compiles to (used by a regression example only)
      private   Priv f: a pure operation on thread-local data
    What is NOT modelled and cannot be: the C11 memory model (every step here is atomic and sequentially consistent),
    pthread mutex behaviour other than mutual exclusion, the heap. *)
@@ -93,7 +99,11 @@ Inductive step :=
 | LogRestore                    (* ly_log_options(prev) *)
 | LogTempSet (v : N)            (* ly_temp_log_options(&temp) with temp = v *)
 | LogTempClear                  (* ly_temp_log_options(NULL) (the previous override; overrides are not nested here) *)
-| LogObserve.                   (* log_vprintf learns the effective options: the override if set, else the global cell *)
+| LogObserve                    (* log_vprintf learns the effective options: the override if set, else the global cell *)
+| RefInc                        (* LY_ATOMIC_INC_BARRIER(type->refcount) *)
+| RefDec                        (* LY_ATOMIC_DEC_BARRIER(type->refcount) (the type is freed when it was 1) *)
+| RefLoad                       (* tmp = type->refcount   (first half of a plain ++) *)
+| RefStoreInc.                  (* type->refcount = tmp + 1  (second half) *)
 
 (* ---------------------------------------------------------------------------------------------------------------
    programs of the API calls
@@ -144,6 +154,8 @@ Inductive apiop :=
 | ALybHash
 | APriv (f : N)
 | ASilentTrial (f : N)          (* a trial operation with the logger silenced by the thread-local override (as coded) *)
+| ADupIid                       (* duplicate a value with a compiled predicate path: reference on the key type (path.c:977) *)
+| AFreeIid                      (* free such a value: lysc_type_free of the key type *)
 | ALogObserve.                  (* any logging call: which options does this thread's logger see *)
 
 Definition p_api (o : apiop) : list step :=
@@ -158,8 +170,13 @@ Definition p_api (o : apiop) : list step :=
   | ALybHash => p_lyb_hash
   | APriv f => [Priv f; OpEnd]
   | ASilentTrial f => [LogTempSet 0; LogObserve; Priv f; LogTempClear; OpEnd]
+  | ADupIid => [Priv 7; RefInc; OpEnd]
+  | AFreeIid => [RefDec; Priv 8; OpEnd]
   | ALogObserve => [LogObserve; OpEnd]
   end.
+
+(* ly_path_dup_predicates with a plain ++refcount instead of the atomic increment (regression example) *)
+Definition p_dup_iid_plain : list step := [Priv 7; RefLoad; RefStoreInc; OpEnd].
 
 (* the same trial with the process-wide cell instead of the override (what a careless implementation does) *)
 Definition p_silent_trial_global (f : N) : list step := [LogSaveSet 0; LogObserve; Priv f; LogRestore; OpEnd].
@@ -191,14 +208,21 @@ Record state := mkS {
   s_thr : list tstate;
   s_logopts : N;              (* ly_log_opts: the process-wide logging options *)
   s_temp : nat -> option N;   (* temp_ly_log_opts of each thread (thread-local storage: only thread t touches s_temp t) *)
-  s_saved : nat -> N }.       (* the local variable prev of a thread between LogSaveSet and LogRestore *)
+  s_saved : nat -> N;         (* the local variable prev of a thread between LogSaveSet and LogRestore *)
+  s_tref : Z;                 (* lysc_type.refcount of one compiled type of the shared schema *)
+  s_tmp : nat -> Z }.         (* the register of a thread between RefLoad and RefStoreInc *)
 
 Definition init (d0 : dictT) (progs : list (list step)) : state :=
-  mkS None None d0 0 8 1 [] (fun _ => false) false (map (fun p => mkT p RNone 0) progs) 3 (fun _ => None) (fun _ => 0).
+  mkS None None d0 0 8 1 [] (fun _ => false) false (map (fun p => mkT p RNone 0) progs) 3 (fun _ => None) (fun _ => 0) 1%Z (fun _ => 0%Z).
 
 (* the same with other initial process-wide logging options (3 = LY_LOLOG | LY_LOSTORE) *)
 Definition init_log (g : N) (d0 : dictT) (progs : list (list step)) : state :=
-  mkS None None d0 0 8 1 [] (fun _ => false) false (map (fun p => mkT p RNone 0) progs) g (fun _ => None) (fun _ => 0).
+  mkS None None d0 0 8 1 [] (fun _ => false) false (map (fun p => mkT p RNone 0) progs) g (fun _ => None) (fun _ => 0) 1%Z (fun _ => 0%Z).
+
+(* the same with another initial reference count of the shared type *)
+Definition init_ref (c : Z) (progs : list (list step)) : state :=
+  mkS None None (fun _ => 0) 0 8 1 [] (fun _ => false) false (map (fun p => mkT p RNone 0) progs) 3 (fun _ => None) (fun _ => 0)
+      c (fun _ => 0%Z).
 
 Definition holder (st : state) (m : lockid) : option tid :=
   match m with LDict => s_ldict st | LHash => s_lhash st end.
@@ -209,30 +233,34 @@ Definition holds (st : state) (t : tid) (m : lockid) : bool :=
 Definition set_holder (st : state) (m : lockid) (h : option tid) : state :=
   match m with
   | LDict => mkS h (s_lhash st) (s_dict st) (s_egen st) (s_esize st) (s_emode st) (s_erecs st) (s_canon st) (s_hash st) (s_thr st)
-         (s_logopts st) (s_temp st) (s_saved st)
+         (s_logopts st) (s_temp st) (s_saved st) (s_tref st) (s_tmp st)
   | LHash => mkS (s_ldict st) h (s_dict st) (s_egen st) (s_esize st) (s_emode st) (s_erecs st) (s_canon st) (s_hash st) (s_thr st)
-         (s_logopts st) (s_temp st) (s_saved st)
+         (s_logopts st) (s_temp st) (s_saved st) (s_tref st) (s_tmp st)
   end.
 
 Definition set_dict (st : state) (d : dictT) : state :=
   mkS (s_ldict st) (s_lhash st) d (s_egen st) (s_esize st) (s_emode st) (s_erecs st) (s_canon st) (s_hash st) (s_thr st)
-      (s_logopts st) (s_temp st) (s_saved st).
+      (s_logopts st) (s_temp st) (s_saved st) (s_tref st) (s_tmp st).
 Definition set_err (st : state) (g sz md : N) (recs : list erec) : state :=
   mkS (s_ldict st) (s_lhash st) (s_dict st) g sz md recs (s_canon st) (s_hash st) (s_thr st)
-      (s_logopts st) (s_temp st) (s_saved st).
+      (s_logopts st) (s_temp st) (s_saved st) (s_tref st) (s_tmp st).
 Definition set_canon (st : state) (c : nat -> bool) : state :=
   mkS (s_ldict st) (s_lhash st) (s_dict st) (s_egen st) (s_esize st) (s_emode st) (s_erecs st) c (s_hash st) (s_thr st)
-      (s_logopts st) (s_temp st) (s_saved st).
+      (s_logopts st) (s_temp st) (s_saved st) (s_tref st) (s_tmp st).
 Definition set_hash (st : state) (b : bool) : state :=
   mkS (s_ldict st) (s_lhash st) (s_dict st) (s_egen st) (s_esize st) (s_emode st) (s_erecs st) (s_canon st) b (s_thr st)
-      (s_logopts st) (s_temp st) (s_saved st).
+      (s_logopts st) (s_temp st) (s_saved st) (s_tref st) (s_tmp st).
 Definition set_thr (st : state) (l : list tstate) : state :=
   mkS (s_ldict st) (s_lhash st) (s_dict st) (s_egen st) (s_esize st) (s_emode st) (s_erecs st) (s_canon st) (s_hash st) l
-      (s_logopts st) (s_temp st) (s_saved st).
+      (s_logopts st) (s_temp st) (s_saved st) (s_tref st) (s_tmp st).
 
 Definition set_log (st : state) (g : N) (tmp : nat -> option N) (sv : nat -> N) : state :=
   mkS (s_ldict st) (s_lhash st) (s_dict st) (s_egen st) (s_esize st) (s_emode st) (s_erecs st) (s_canon st) (s_hash st) (s_thr st)
-      g tmp sv.
+      g tmp sv (s_tref st) (s_tmp st).
+Definition set_ref (st : state) (c : Z) (tmp : nat -> Z) : state :=
+  mkS (s_ldict st) (s_lhash st) (s_dict st) (s_egen st) (s_esize st) (s_emode st) (s_erecs st) (s_canon st) (s_hash st) (s_thr st)
+      (s_logopts st) (s_temp st) (s_saved st) c tmp.
+Definition zupd (c : nat -> Z) (t : nat) (v : Z) : nat -> Z := fun x => if Nat.eqb x t then v else c x.
 Definition oupd (c : nat -> option N) (t : nat) (v : option N) : nat -> option N := fun x => if Nat.eqb x t then v else c x.
 Definition nupd (c : nat -> N) (t : nat) (v : N) : nat -> N := fun x => if Nat.eqb x t then v else c x.
 
@@ -264,7 +292,8 @@ Inductive event :=
 | EvCanonUse (v : nat) (cached : bool)
 | EvHashRead (cached : bool)
 | EvOpEnd
-| EvLogOpts (v : N).                        (* the logging options a logging call of this thread works with *)
+| EvLogOpts (v : N)
+| EvRef (d : Z).                            (* an atomic reference count operation took effect: +1 / -1 *)                        (* the logging options a logging call of this thread works with *)
 
 Definition priv_fun (f x : N) : N := (x * 16777619 + f) mod 4294967296.
 
@@ -358,6 +387,10 @@ Definition exec_step (st : state) (t : tid) (ts : tstate) (stp : step) (rest : l
   | LogTempSet v => (same (set_log st (s_logopts st) (oupd (s_temp st) t (Some v)) (s_saved st)), [])
   | LogTempClear => (same (set_log st (s_logopts st) (oupd (s_temp st) t None) (s_saved st)), [])
   | LogObserve => (same st, [EvLogOpts (match s_temp st t with Some v => v | None => s_logopts st end)])
+  | RefInc => (same (set_ref st (s_tref st + 1)%Z (s_tmp st)), [EvRef 1%Z])
+  | RefDec => (same (set_ref st (s_tref st - 1)%Z (s_tmp st)), [EvRef (-1)%Z])
+  | RefLoad => (same (set_ref st (s_tref st) (zupd (s_tmp st) t (s_tref st))), [])
+  | RefStoreInc => (same (set_ref st (s_tmp st t + 1)%Z (s_tmp st)), [])
   end.
 
 Definition exec (st : state) (t : tid) : state * list event :=
@@ -521,6 +554,16 @@ Definition is_temp_log (s : step) : bool := match s with LogTempSet _ | LogTempC
 Definition global_log_free (p : list step) : bool := negb (existsb is_global_log p).
 Definition temp_log_free (p : list step) : bool := negb (existsb is_temp_log p).
 
+(* no step is half of a plain (non-atomic) increment of the shared type's reference count *)
+Definition is_plain_ref (s : step) : bool := match s with RefLoad | RefStoreInc => true | _ => false end.
+Definition plain_ref_free (p : list step) : bool := negb (existsb is_plain_ref p).
+Fixpoint ref_sum (tr : trace) : Z :=
+  match tr with
+  | [] => 0%Z
+  | (_, EvRef d) :: tr' => (d + ref_sum tr')%Z
+  | _ :: tr' => ref_sum tr'
+  end.
+
 (* Priv steps are never inside a conditionally skipped block *)
 Definition is_priv (s : step) : bool := match s with Priv _ => true | _ => false end.
 Fixpoint privs_unskipped (p : list step) : bool :=
@@ -601,3 +644,11 @@ Definition w_log2_progs : list (list step) := [p_silent_trial_global 1; p_silent
 Definition w_log2_fine : list tid := [0; 1; 0; 0; 0; 0; 1; 1; 1; 1]%nat.
 (* the same with the thread-local override (as coded) *)
 Definition w_log_progs_temp : list (list step) := [compile [ASilentTrial 1]; compile [ALogObserve]].
+
+(* reference count of a shared compiled type: two threads duplicate a value with a plain ++ (load, load, store, store: one
+   increment is lost), and a plain ++ that overwrites another thread's atomic decrement *)
+Definition w_ref_progs : list (list step) := [p_dup_iid_plain; p_dup_iid_plain].
+Definition w_ref_fine : list tid := [0; 1; 0; 1; 0; 1; 0; 1]%nat.
+Definition w_ref2_progs : list (list step) := [p_dup_iid_plain; compile [AFreeIid]].
+Definition w_ref2_fine : list tid := [0; 0; 1; 0; 0; 1; 1]%nat.
+Definition w_ref_progs_atomic : list (list step) := [compile [ADupIid]; compile [ADupIid]].
